@@ -488,7 +488,7 @@ func boundaryMerges(c *ctx, parts []int, prop string, limit int) bool {
 		drop  int
 		mode  uint32
 	}
-	cases := []bm{{1100, []int{1024, 1025, 1026, 3}, 1, 1026}, {1100, []int{1023, 1024, 1025}, 2, 1025}}
+	cases := []bm{{1100, []int{1024, 1025, 1026, 3}, 1, 1026}, {1100, []int{1023, 1024, 1025}, 2, 1025}, {1100, []int{3, 1030, 1025}, 1, 1026}} // the last term of a batch is the empty term
 	if !c.Quick {
 		cases = append(cases, bm{2100, []int{2048, 2049, 2050, 1024, 1025}, 1, 1026}, bm{1500, []int{1024, 1100}, 80, 1026}, bm{1100, []int{1025, 1024}, 1, 1024})
 	}
@@ -515,7 +515,24 @@ func boundaryMerges(c *ctx, parts []int, prop string, limit int) bool {
 		mc := &mergeCase{ins: []*segEnt{e2, e1}, drops: [][]uint64{nil, drops}, nilBM: []bool{true, false}, mode: g.mode}
 		c.Case(fmt.Sprintf("boundary-merge-%v-%d-%d", g.cards, g.drop, g.mode), true)
 		c.Count("boundary_merges")
-		bad, r, _ := mergeVerdict(c, mc, parts, false)
+		bad, r, mspec := mergeVerdict(c, mc, parts, false)
+		if bad == "" && r.seg != nil {
+			// merged once more on its own (identical field lists: the per-document byte-copy path)
+			m1 := &segEnt{seg: r.seg, spec: mspec, n: mspec.L[pNDocs].N, prov: "merged", depth: 1}
+			var d2 []uint64
+			for d := uint64(0); d < m1.n; d += 97 {
+				d2 = append(d2, d)
+			}
+			mc2 := &mergeCase{ins: []*segEnt{m1}, drops: [][]uint64{d2}, nilBM: []bool{false}, mode: g.mode}
+			bad2, r2, _ := mergeVerdict(c, mc2, parts, false)
+			if r2.seg != nil {
+				r2.seg.Close()
+			}
+			if bad2 != "" {
+				bad = "the output merged once more on its own (every 97th document deleted): " + bad2
+			}
+			c.Count("boundary_re_merges")
+		}
 		if r.seg != nil {
 			r.seg.Close()
 		}
